@@ -385,6 +385,60 @@ fn conn_level(args: &Args, total: &mut Acc) {
     total.count("connection_level_cases", cases.len() as u64);
 }
 
+/// Abort screening: the structured inputs are first decoded in child processes, in batches; a batch whose child
+/// is killed by a signal is bisected down to the input that kills it. That input is reported
+/// (`C11:decode-process-aborted`) and taken out of the set that is then checked in-process, so that a subject
+/// which aborts (an allocation sized by a peer-announced length) cannot take the check down with it.
+fn screen_aborts(inputs: &mut Vec<Vec<u8>>, acc: &mut Acc) {
+    use crate::common::{run_isolated, Isolated};
+    fn kills(batch: &[Vec<u8>]) -> Option<String> {
+        let rep = json!({"kind":"decode-screen","inputs": batch.iter().map(|b| hex(b)).collect::<Vec<_>>()});
+        match run_isolated("C11", &rep) {
+            Isolated::Aborted(s) => Some(s),
+            Isolated::TimedOut => Some("no return within 120 s".into()),
+            Isolated::Machinery(e) => explore::machinery_failure(&format!("abort screening failed to run: {e}")),
+            _ => None,
+        }
+    }
+    fn bisect(batch: &[Vec<u8>], how: &str, out: &mut Vec<(Vec<u8>, String)>) {
+        if batch.len() == 1 {
+            out.push((batch[0].clone(), how.to_string()));
+            return;
+        }
+        let (a, b) = batch.split_at(batch.len() / 2);
+        for half in [a, b] {
+            if let Some(h) = kills(half) {
+                bisect(half, &h, out);
+            }
+        }
+    }
+    let batches: Vec<&[Vec<u8>]> = inputs.chunks(4096).collect();
+    let found: Vec<Vec<(Vec<u8>, String)>> = explore::par::run(&batches, Vec::new, |_, batch, out: &mut Vec<(Vec<u8>, String)>| {
+        if let Some(h) = kills(batch) {
+            bisect(batch, &h, out);
+        }
+    });
+    let killers: Vec<(Vec<u8>, String)> = found.into_iter().flatten().collect();
+    for (b, how) in &killers {
+        acc.violation(
+            "C11:decode-process-aborted".to_string(),
+            format!("decode_stateless({}) killed the process ({how}): an allocation sized by a length the peer announced?", hex(b)),
+            (0, b.len()),
+            || json!({"kind":"decode","input":hex(b)}),
+        );
+    }
+    if !killers.is_empty() {
+        let set: std::collections::HashSet<&Vec<u8>> = killers.iter().map(|k| &k.0).collect();
+        let kept: Vec<Vec<u8>> = inputs.iter().filter(|i| !set.contains(i)).cloned().collect();
+        *inputs = kept;
+    }
+    acc.count("abort_screening_batches", batches_len(inputs.len()));
+}
+
+fn batches_len(n: usize) -> u64 {
+    ((n + 4095) / 4096) as u64
+}
+
 fn structured_decode_inputs(thorough: bool) -> Vec<Vec<u8>> {
     let mut v: Vec<Vec<u8>> = Vec::new();
     let idxs: Vec<u64> = (0..=101).chain([126, 127, 128, 255, 256, 16383, 16384, (1 << 30), (1u64 << 62) - 1]).collect();
@@ -561,7 +615,10 @@ pub fn run(args: &Args) -> i32 {
     for a in 0..red3.len() {
         jobs.push(Job::EncTriples(a, a + 1));
     }
-    for c in structured_decode_inputs(thorough).chunks(4096) {
+    let mut structured = structured_decode_inputs(thorough);
+    let mut screen_acc = Acc::new();
+    screen_aborts(&mut structured, &mut screen_acc);
+    for c in structured.chunks(4096) {
         jobs.push(Job::Dec(c.to_vec()));
     }
     let prefixes: Vec<Vec<u8>> = vec![vec![0x00, 0x00], vec![0x00, 0x7f, 0x00], vec![0x01, 0x00], vec![0x00, 0x80], vec![0x00, 0x81]];
@@ -648,7 +705,48 @@ pub fn run(args: &Args) -> i32 {
     for a in accs {
         total.merge(a);
     }
+    total.merge(screen_acc);
     conn_level(args, &mut total);
+    // sections with a string literal announcing 2^31 ... 2^64-1 bytes, two bytes present: child processes
+    {
+        let mut inputs: Vec<Vec<u8>> = Vec::new();
+        for l in [1u64 << 31, 1 << 32, 1 << 36, 1 << 40, 1 << 47, 1 << 61, 1 << 62, 1 << 63, u64::MAX] {
+            for huffman in [0u8, 1] {
+                let mut a = vec![0x00, 0x00, 0x51];
+                a.extend(refimpl::qint::encode(7, huffman, l));
+                a.extend_from_slice(b"xy");
+                inputs.push(a);
+                let mut b = vec![0x00, 0x00];
+                b.extend(refimpl::qint::encode(3, 0x4 | huffman, l));
+                b.extend_from_slice(b"xy");
+                inputs.push(b);
+            }
+        }
+        let iso = explore::par::run(&inputs, Acc::new, |_, b, acc| {
+            acc.evaluations += 1;
+            let rep = || json!({"kind":"decode","input":hex(b)});
+            match crate::common::run_isolated("C11", &rep()) {
+                crate::common::Isolated::NoViolation => {}
+                crate::common::Isolated::Violations(v) => {
+                    for (sig, msg) in v {
+                        acc.violation(sig, msg, (0, b.len()), rep);
+                    }
+                }
+                crate::common::Isolated::Aborted(sigl) => acc.violation(
+                    "C11:decode-process-aborted".to_string(),
+                    format!("decode_stateless({}) killed the process ({sigl}): an allocation sized by the announced length?", hex(b)),
+                    (0, b.len()),
+                    rep,
+                ),
+                crate::common::Isolated::TimedOut => acc.violation("C11:decode-does-not-return".to_string(), format!("decode_stateless({}) did not return within 120 s", hex(b)), (0, b.len()), rep),
+                crate::common::Isolated::Machinery(e) => explore::machinery_failure(&format!("isolated run failed: {e}")),
+            }
+        });
+        for a in iso {
+            total.merge(a);
+        }
+        total.count("isolated_huge_announced_length_inputs", inputs.len() as u64);
+    }
     total.sample(|| json!({"decode":"0100d1","meaning":"Required Insert Count 1, then indexed static 17","reference":"reject: a stateless decoder has no dynamic table"}));
     total.sample(|| json!({"decode":"0000510b2f696e6465782e68746d6c","reference":":path=/index.html (RFC 9204 B.1)"}));
     total.sample(|| json!({"encode":[[":method","GET"],["x",""]],"reference":"decodes back to the same list, in order"}));
@@ -670,6 +768,16 @@ pub fn replay(r: &Value) -> i32 {
             check_encode(&fields, &mut acc);
         }
         Some("conn") => return crate::c02_conn::replay_p("C11:conn", r),
+        Some("decode-screen") => {
+            // child side of the abort screening: decode every input, report nothing (the parent looks at how
+            // this process ends)
+            for i in r["inputs"].as_array().unwrap() {
+                let b = explore::unhex(i.as_str().unwrap());
+                let _ = h3_decode(&b);
+            }
+            println!("observed: no violation");
+            return 0;
+        }
         _ => return 2,
     }
     for (sig, v) in &acc.violations {
